@@ -266,11 +266,10 @@ def evaluate(c, exe, groups, refok, tier, count=True):
     par = lib.NPROC * 2 if len(flat) > 64 else lib.NPROC
     by_len = sorted(range(len(flat)), key=lambda i: -len(flat[i]))
     nch = par if len(flat) >= 2 * par else 1
-    size = max(1, (len(flat) + nch - 1) // nch)
     cols = [by_len[c::nch] for c in range(nch)]
     order = []
     for col in cols: order += col
-    # run_lines uses chunks of `size` consecutive lines: pad nothing, chunk c holds (almost exactly) column c
+    # (chunk c of run_lines then holds, almost exactly, column c)
     outs_sorted = lib.run_lines([exe], [flat[i] for i in order], timeout=3000, par=par)
     outs = [None] * len(flat)
     for i, o in zip(order, outs_sorted): outs[i] = o
